@@ -71,8 +71,12 @@ Consistent(s) ==
 \* and a nested file with an all-zero date
 UnivMeta == {Md(F(<<"a">>, "plain"), x) : x \in MetaClasses \ {"std"}}
             \cup {Md(D(<<"d">>), "dt0"), Md(L(<<"l">>, <<"a">>), "dt0"), Md(F(<<"d", "a">>, "plain"), "dt0"), Md(D(<<"d">>), "dos")}
+\* the line-end dimension of text metadata: each kind of metadata member, in every line-end class, beside the file it describes
+CAP == F(<<".cap", "a">>, "cap")
+UnivText == {Md(t, x) : t \in {LNK, ABS, CAP, GMAP}, x \in LineEndClasses} \cup {CAP}
+TextLists == IF MetaLen = 0 THEN {} ELSE {<<A, t>> : t \in UnivText} \cup {<<A, DA, t>> : t \in {Md(LNK, x) : x \in {"le_cr", "le_seps"}}}
 SeqsUpTo(U, n) == UNION {{s \in [1..k -> U] : Consistent(s)} : k \in 1..n}
-Lists == SeqsUpTo(UnivFull, FullLen) \cup SeqsUpTo(UnivCore, CoreLen) \cup SeqsUpTo(UnivMeta, MetaLen)
+Lists == SeqsUpTo(UnivFull, FullLen) \cup SeqsUpTo(UnivCore, CoreLen) \cup SeqsUpTo(UnivMeta, MetaLen) \cup TextLists
 
 \* ---------------------------------------------------------------------------------------
 \* selectors of the model: everything either side can reach by listing, every member path and
